@@ -94,7 +94,16 @@ static int clock_on = 0; static long long clk_sec = 0; static long clk_nsec = 0;
 void lwv_set_clock(int on, long long sec, long nsec) { clock_on = on; clk_sec = sec; clk_nsec = nsec; }
 int __wrap_clock_gettime(clockid_t id, struct timespec *ts) {
     if (!clock_on) return __real_clock_gettime(id, ts);
-    ts->tv_sec = (time_t) clk_sec; ts->tv_nsec = clk_nsec; return 0;
+    /* the injected reading is the wall clock (CLOCK_REALTIME).  Other clock ids are other clocks: the coarse wall
+     * clock is the value at the last 4 ms tick one tick ago (it lags the fine clock, as the kernel's does), every other
+     * id counts from an unrelated origin.  A timestamp taken from them is not the reading the caller injected. */
+    if (id == CLOCK_REALTIME) { ts->tv_sec = (time_t) clk_sec; ts->tv_nsec = clk_nsec; return 0; }
+    if (id == CLOCK_REALTIME_COARSE) {
+        long long ns = clk_sec * 1000000000LL + clk_nsec;
+        ns = ns - ns % 4000000LL - 4000000LL; if (ns < 0) ns = 0;
+        ts->tv_sec = (time_t) (ns / 1000000000LL); ts->tv_nsec = (long) (ns % 1000000000LL); return 0;
+    }
+    ts->tv_sec = (time_t) (clk_sec % 100000); ts->tv_nsec = clk_nsec; return 0;
 }
 
 static int rnd_mode = 0; static unsigned char rnd_bytes[64]; static size_t rnd_n = 0; static long rnd_calls = 0;
